@@ -11,5 +11,9 @@ def run(ctx):
     return seqprop.run(
         ctx, THEOREMS, corr=('result',), oracle=('C09',),
         quick_plan=quick, thorough_plan=thorough, corpus_tags=('D1', 'D2', 'D3', 'D4', 'D5', 'D6'),
+        # the harness's `custom` policy is not demote-transitive (hypothesis pol_demote_trans of the theorem, shown
+        # necessary by upper_inv_needs_demote_trans): its 'unreserve invalid class' panic is outside C09's scope
+        # ("every class configuration the repository uses"); the model reproduces it (no CORR mismatch)
+        keep=lambda kind, text: not ("policy=custom" in text and "unreserve invalid class" in text),
         text="Coq theorems: for every geometry, every frame count (0 included), FreeAll / AllocAll / Recover (over any buffer satisfying the recovery precondition), every classing (ids < 8, default configured, any slot counts incl. zero), every policy that is reflexive-Match and demote-transitive (proved for the repository's simple, movable, zeroed and zero-slot policies; shown necessary by a witness), and every history of valid-parameter calls (slot index below the class's slot count or none; change_tree naming any tree id and any configured class): no call returns Panic, where the model maps every expect/unwrap/assert/index/checked-arithmetic site of the code to a Panic outcome; it is UpperInv preservation plus totality of every access. Tied to the code by replaying histories with catch_unwind around every call: the implementation must panic exactly where the model does (never, for valid parameters).",
         rule=_seqplans.RULE)
